@@ -58,3 +58,173 @@ def gen_heap_consts():
            f"Definition SZ_STRING : N := {sz['AelysString']}%N.\n",
            f"Definition SZ_VALUE : N := {sz['Value']}%N.\n"]
     return write_if_changed("HeapConsts.v", "".join(out))
+
+
+# ---------------------------------------------------------------------------------------------------------
+# HeapSites: every place in runtime/src and bytecode/src/object where host memory is requested with a size
+# that is an expression (Vec::with_capacity, String::with_capacity, vec![x; n], reserve, reserve_exact, resize,
+# repeat, repeat_n, AelysArray::new_*, AelysVec::with_capacity_*), with its enclosing function / opcode arm, and
+# how the size is kept in check:
+#   1  a heap-limit check (ensure_heap_capacity / check_string_capacity / checked_array_len / vec_reserve_checked)
+#      precedes it in the same function or arm
+#   2  the buffer has its own bound: a comparison with MAX_ALLOC / MAX_BUF / MAX_BUFFER_SIZE precedes it
+#   3  the size is a constant, an instruction operand (<= 255) or a VM-internal quantity with its own limit
+#      (register stack, frames, call-site cache, globals table) -- reviewed table below, keyed by the size text
+#   4  constructor in bytecode/src/object: the size is the caller's (every caller in runtime/src is a site itself)
+#   0  none of these: a NEW allocating primitive without a preceding capacity check -> the translator fails
+SITE_PATTERNS = [
+    ("Vec::with_capacity", r"\bVec::with_capacity\s*\("), ("String::with_capacity", r"\bString::with_capacity\s*\("),
+    ("vec!", r"\bvec!\s*\[[^;\]]*;"), ("reserve", r"\.reserve\s*\("), ("reserve_exact", r"\.reserve_exact\s*\("),
+    ("resize", r"\.resize\s*\("), ("repeat", r"\.repeat\s*\("), ("repeat_n", r"\brepeat_n\s*\("),
+    ("AelysArray::new", r"\bAelysArray::new_(?:ints|floats|bools|objects)\s*\("),
+    ("AelysVec::with_capacity", r"\bAelysVec::with_capacity_(?:ints|floats|bools|objects)\s*\("),
+    ("ManualHeap::alloc", r"\bmanual_heap(?:_mut\(\))?\s*\.\s*(?:alloc|alloc_guarded|with_allocation)\s*\("),
+]
+LIMIT_CHECKS = ("ensure_heap_capacity(", "check_string_capacity(", "checked_array_len(", "vec_reserve_checked(")
+OWN_BOUNDS = ("> MAX_ALLOC", "> MAX_BUF", "> MAX_BUFFER_SIZE")
+# size text (whitespace removed) -> why it is bounded without a heap-limit check.  Only for the VM's own structures
+# (files under runtime/src/vm/); in the natives (runtime/src/stdlib/) only a numeric literal is accepted.
+REVIEWED_SIZES = {
+    "needed": "register window of a call: bounded by the register-stack / stack-overflow checks",
+    "index+1": "register stack growth up to the checked register index",
+    "REGISTER_STACK_SIZE": "fixed register stack", "REGISTER_STACK_SIZE-self.registers.len()": "fixed register stack",
+    "MAX_REGISTERS": "register stack bound", "MAX_FRAMES": "frame stack bound",
+    "slot+1": "call-site cache: slot < MAX_CALL_SITE_SLOTS is checked by the bytecode verifier",
+    "nargs as usize": "argument count of one call instruction (<= 255)", "args.len()": "argument count of one call",
+    "num_upvalues as usize": "upvalue count operand (<= 255)",
+    "len": "globals table: number of global names of the running function", "needed_len": "globals table: number of global names",
+    "idx+1": "globals table: index of a global name",
+    "b_len+1": "edit-distance matrix of a diagnostic hint: identifier lengths",
+    "vec![0;b_len+1];a_len+1": "edit-distance matrix of a diagnostic hint: identifier lengths",
+}
+
+
+def _reviewed(rel, size_n, before):
+    if re.fullmatch(r"\d+", size_n):
+        return True
+    if not rel.startswith("runtime/src/vm/"):
+        return False
+    if size_n == "count":
+        # element count of a literal: the byte operand c of the instruction
+        return bool(re.search(r"let\s+count\s*=\s*c\s+as\s+usize\s*;", before))
+    return size_n in REVIEWED_SIZES
+
+
+# (module, native) whose result is at most linear in the data it was handed
+LINEAR_BUILDERS = {("string", n) for n in (
+    "native_chars", "native_bytes", "native_char_at", "native_substr", "native_to_upper", "native_to_lower", "native_capitalize",
+    "native_replace_first", "native_split", "native_reverse", "native_concat", "native_trim", "native_trim_start", "native_trim_end",
+    "native_lines")} | {("convert", n) for n in (
+    "native_to_string", "native_to_hex", "native_to_binary", "native_to_octal", "native_to_radix", "native_chr", "native_type_of")} | {
+    ("io", n) for n in ("native_readline", "native_read_char", "native_input")} | {("fs", n) for n in (
+    "native_read", "native_read_line", "native_readdir", "native_read_text", "native_basename", "native_dirname", "native_extension",
+    "native_join", "native_absolute")} | {("sys", n) for n in (
+    "native_args", "native_arg", "native_script_path", "native_script_dir", "native_env", "native_env_vars", "native_cwd", "native_home",
+    "native_platform", "native_arch", "native_os", "native_hostname", "native_exec_output", "native_exec_args_output")} | {
+    ("time", n) for n in ("native_format", "native_iso", "native_date", "native_time_str")} | {("net", n) for n in (
+    "native_udp_recv_from", "native_udp_recv", "native_recv", "native_recv_bytes", "native_recv_line", "native_local_addr", "native_peer_addr")} | {
+    ("bytes", "native_decode")}
+
+
+def _paren_arg(text, i):
+    """text[i] is just after an opening bracket: return the text up to the matching close"""
+    depth, j = 1, i
+    while j < len(text) and depth:
+        if text[j] in "([{":
+            depth += 1
+        elif text[j] in ")]}":
+            depth -= 1
+        j += 1
+    return text[i:j - 1]
+
+
+def _enclosing(text, pos, is_inc):
+    """(name, start) of the function or opcode arm that contains pos"""
+    best = ("<top>", 0)
+    for m in re.finditer(r"\bfn\s+([A-Za-z0-9_]+)", text[:pos]):
+        best = ("fn " + m.group(1), m.start())
+    if is_inc:
+        for m in re.finditer(r"^\s{4}(\d+)\s*(?:\|\s*\d+\s*)*=>\s*\{", text[:pos], flags=re.M):
+            if m.start() > best[1]:
+                best = ("op" + m.group(1), m.start())
+    return best
+
+
+@extract.register("HeapSites")
+def gen_heap_sites():
+    import glob as _glob, os
+    files = []
+    for root in ("runtime/src", "bytecode/src/object"):
+        base = os.path.join(extract.REPO, root)
+        for dp, _, fs in os.walk(base):
+            for f in fs:
+                rel = os.path.relpath(os.path.join(dp, f), extract.REPO)
+                if (f.endswith(".rs") or f.endswith(".inc")) and "/verifier/" not in rel and not rel.endswith("verif.rs") and "/tests/" not in rel:
+                    files.append(rel)
+    if not files:
+        raise ExtractError("no source files found under runtime/src")
+    sites, unguarded = [], []
+    for rel in sorted(files):
+        text = strip_comments(rd(rel))
+        for kind, pat in SITE_PATTERNS:
+            for m in re.finditer(pat, text):
+                if kind == "vec!":
+                    size = _paren_arg(text, m.end())
+                else:
+                    size = _paren_arg(text, m.end())
+                    if kind == "ManualHeap::alloc":
+                        size = size.split(",")[0]
+                    if kind in ("resize", "repeat_n"):
+                        parts = size.split(",")
+                        size = parts[0] if kind == "resize" else parts[-1]
+                size_n = re.sub(r"\s+", "", size).replace("asusize", " as usize")
+                where, start = _enclosing(text, m.start(), rel.endswith(".inc"))
+                before = text[start:m.start()]
+                if rel.startswith("bytecode/src/object") or rel.startswith("runtime/src/vm/manual_heap/"):
+                    cls = 4
+                elif any(c in before for c in LIMIT_CHECKS):
+                    cls = 1
+                elif any(c in before for c in OWN_BOUNDS):
+                    cls = 2
+                elif _reviewed(rel, size_n, before):
+                    cls = 3
+                else:
+                    cls = 0
+                    unguarded.append(f"{rel}: {where}: {kind}({size.strip()[:60]})")
+                sites.append((rel, where, kind, size_n[:60], cls))
+    # natives that hand a string they have built to make_string: either the length of the result is checked first
+    # (class 1) or the native is in the reviewed table (class 5: the result is at most linear in the strings / external
+    # data the native was given, times a constant); anything else is a new string builder without a capacity check
+    builders = []
+    for rel in sorted(f for f in files if f.startswith("runtime/src/stdlib/")):
+        text = strip_comments(rd(rel))
+        fns = [(m.group(1), m.start()) for m in re.finditer(r"\bfn\s+(\w+)", text)]
+        for i, (name, st) in enumerate(fns):
+            body = text[st:fns[i + 1][1] if i + 1 < len(fns) else len(text)]
+            pm = body.rfind("make_string(")
+            if pm < 0 or name == "make_string":
+                continue
+            mod = os.path.basename(rel)[:-3]
+            if "check_string_capacity(" in body[:pm]:
+                cls = 1
+            elif (mod, name) in LINEAR_BUILDERS:
+                cls = 5
+            else:
+                cls = 0
+                unguarded.append(f"{rel}: fn {name}: make_string of a built string without check_string_capacity (not in the reviewed linear list)")
+            builders.append((rel, "fn " + name, cls))
+    out = [HEADER.format(src="runtime/src/**, bytecode/src/object/** (every sized host allocation)"),
+           "From Coq Require Import String List NArith.\nImport ListNotations.\nLocal Open Scope string_scope.\n",
+           "(* (file, enclosing fn / opcode arm, kind, size expression, class)  class: 1 heap-limit check precedes, 2 own bound precedes,\n"
+           "   3 constant / operand / VM-internal bounded quantity (reviewed), 4 constructor (size is the caller's), 0 unguarded *)\n",
+           "Definition heap_alloc_sites : list (string * string * string * string * N) :=\n  ["]
+    out.append(";\n   ".join('("%s", "%s", "%s", "%s", %d%%N)' % (a, b, c, d.replace('"', "'"), e) for a, b, c, d, e in sites))
+    out.append("].\n")
+    out.append("(* natives that build a string: (file, fn, class)  class 1: result length checked first, 5: reviewed, result linear in its inputs *)\n")
+    out.append("Definition string_builders : list (string * string * N) :=\n  [")
+    out.append(";\n   ".join('("%s", "%s", %d%%N)' % b for b in builders))
+    out.append("].\n")
+    p = write_if_changed("HeapSites.v", "".join(out))
+    if unguarded:
+        raise ExtractError("allocating primitive(s) without a preceding capacity check: " + "; ".join(unguarded[:6]))
+    return p
